@@ -336,6 +336,48 @@ def single_departures(T, rng, rows_per_col=3):
                 for v in time_values(T[tab][row][col], tmax):
                     if v != T[tab][row][col]:
                         out.append(("%s[%d].%d=time:%s" % (tab, row, col, v if isinstance(v, str) else "num"), setcell(tab, row, col, v)))
+    # relational boundaries: a cell set exactly to (and just beside) the value it is compared with
+    def tnode(u):
+        return T["nodes"][u][0] if 0 <= u < len(T["nodes"]) and isnum(T["nodes"][u][0]) else None
+
+    for row in pick_rows(len(T["muts"]), rng, rows_per_col + 1):
+        site, node, par, tm = T["muts"][row]
+        cands = []
+        if tnode(node) is not None:
+            cands += [("node-time", tnode(node))]
+        if 0 <= site < len(T["sites"]) and isnum(T["sites"][site][0]):
+            x = T["sites"][site][0]
+            for l, r, p, c in T["edges"]:
+                if c == node and isnum(l) and isnum(r) and l <= x < r and tnode(p) is not None:
+                    cands += [("parent-node-time", tnode(p))]
+        if 0 <= par < len(T["muts"]) and isnum(T["muts"][par][3]):
+            cands += [("parent-mutation-time", T["muts"][par][3])]
+        if row > 0 and isnum(T["muts"][row - 1][3]):
+            cands += [("previous-mutation-time", T["muts"][row - 1][3])]
+        for what, val in cands:
+            for lab, vv in (("=", val), ("-eps", math.nextafter(val, -math.inf)), ("+eps", math.nextafter(val, math.inf))):
+                if vv != tm:
+                    out.append(("muts[%d].3=time:%s%s" % (row, what, lab), setcell("muts", row, 3, vv)))
+    for row in pick_rows(len(T["edges"]), rng, rows_per_col + 1):
+        l, r, p, c = T["edges"][row]
+        if tnode(p) is not None and tnode(c) is not None:
+            out.append(("nodes[child of edge %d].0=time:parent-time" % row, setcell("nodes", c, 0, tnode(p))))
+            out.append(("nodes[parent of edge %d].0=time:child-time" % row, setcell("nodes", p, 0, tnode(c))))
+        for row2 in range(len(T["edges"])):
+            l2, r2, p2, c2 = T["edges"][row2]
+            if row2 != row and c2 == c and isnum(l2) and isnum(r2):
+                out.append(("edges[%d].0=coord:left-of-edge-%d-same-child" % (row, row2), setcell("edges", row, 0, l2)))
+                out.append(("edges[%d].1=coord:right-of-edge-%d-same-child" % (row, row2), setcell("edges", row, 1, r2)))
+                out.append(("edges[%d].1=coord:just-past-left-of-edge-%d" % (row, row2), setcell("edges", row, 1, math.nextafter(l2, math.inf))))
+    for row in range(len(T["sites"])):
+        for other in (row - 1, row + 1):
+            if 0 <= other < len(T["sites"]) and isnum(T["sites"][other][0]):
+                out.append(("sites[%d].0=coord:position-of-site-%d" % (row, other), setcell("sites", row, 0, T["sites"][other][0])))
+    for row in range(1, len(T["migs"])):
+        if isnum(T["migs"][row - 1][5]):
+            v0 = T["migs"][row - 1][5]
+            out.append(("migs[%d].5=time:previous=" % row, setcell("migs", row, 5, v0)))
+            out.append(("migs[%d].5=time:previous-eps" % row, setcell("migs", row, 5, math.nextafter(v0, -math.inf))))
     # individual parents
     NI = len(T["inds"])
     for row in pick_rows(NI, rng, rows_per_col):
@@ -826,15 +868,61 @@ class Valid(Gate):
             yield {"T": X, "edits": ["index:user-consistent"]}
 
 
+def features(T):
+    f = set()
+    t = [n[0] for n in T["nodes"]]
+    if len(T["edges"]) >= 3:
+        f.add("edges>=3")
+    if len({e[0] for e in T["edges"]} | {e[1] for e in T["edges"]}) >= 3:
+        f.add("several-trees")
+    if len({e[3] for e in T["edges"]}) < len(T["edges"]):
+        f.add("child-with-several-edges")
+    if len(T["sites"]) >= 2:
+        f.add("sites>=2")
+    for j, (site, node, par, tm) in enumerate(T["muts"]):
+        f.add("unknown-time" if tm == "unk" else "known-time")
+        if par != NULL:
+            f.add("mutation-parent")
+            if isnum(tm):
+                f.add("known-time-with-parent")
+        if isnum(tm) and any(c == node and l <= T["sites"][site][0] < r for l, r, p, c in T["edges"]):
+            f.add("known-time-below-parent-node")
+        if j and T["muts"][j - 1][0] == site:
+            f.add("site-with-several-mutations")
+    if T["migs"]:
+        f.add("migrations")
+    if len(T["migs"]) >= 2:
+        f.add("migrations>=2")
+    if any(p for p in T["inds"]):
+        f.add("individual-parents")
+    if any(n[1] != NULL for n in T["nodes"]):
+        f.add("node-population")
+    if any(n[2] != NULL for n in T["nodes"]):
+        f.add("node-individual")
+    return f
+
+
+def pick_bases(rng, n):
+    """n bases out of a pool, greedily by the number of still uncovered features."""
+    pool = base_tables(rng, 12 * n, small=True)
+    have, out = set(), []
+    while len(out) < n and pool:
+        pool.sort(key=lambda T: (-len(features(T) - have), -len(T["muts"]) - len(T["edges"])))
+        T = pool.pop(0)
+        out.append(T)
+        have |= features(T)
+        if len(out) % 4 == 0:
+            have = set()
+    return out
+
+
 class Stream(Gate):
     name = "stream"
 
     def generate(self, rng, tier):
         nbase = 5 if tier == "quick" else 40
         rows = 2 if tier == "quick" else 3
-        bases = base_tables(rng, nbase, small=True)
-        # make sure the bases exercise every table
-        bases.sort(key=lambda T: -(len(T["muts"]) > 0) - (len(T["migs"]) > 0) - (len(T["inds"]) > 0))
+        bases = pick_bases(rng, nbase)
         for k, T in enumerate(bases):
             for explicit in (False, True):
                 B = copyT(T)
@@ -846,7 +934,7 @@ class Stream(Gate):
                     f(X)
                     yield {"T": X, "edits": [label]}
                 # random pairs of departures
-                for _ in range(120 if tier == "quick" else 600):
+                for _ in range(40 if tier == "quick" else 400):
                     (l1, f1), (l2, f2) = rng.sample(deps, 2)
                     X = copyT(B)
                     try:
